@@ -47,6 +47,8 @@ def check_function(fn, releasers, pointer_only=True, use_facts=True):
     from .units import AnalysisBroken
     if use_facts:
         try:
+            if len(fn.blocks) > 50:
+                raise AnalysisBroken("large function")
             return check_function(fn, releasers, pointer_only, use_facts=None)
         except AnalysisBroken:
             # too many fact combinations: fall back to the condition-insensitive typestate
